@@ -23,9 +23,10 @@ tuning curves of `OpdaModel/QuadNoisy.lean` and the loop of `OpdaModel/QuadTrap.
                                                             nearest internal switch point: 1e-6, 10, 5e-2, every
                                                             min_scale of the shipped table, 1e-2, 3e-3, 6e-4, 3e-4)
     quad.nqtc         a b c o convex  mn q  n n₁ … nₙ    → v₁ m₁ …  (value, bisection tie margin)
-    quad.navg         a b c o convex  mn atol  n n₁ … nₙ → i  v₁ … vₙ  e₁ … eᵢ   (rounds, values, error estimate
+    quad.navg         a b c o convex  mn atol cap  n n₁ … nₙ → i  v₁ … vₙ  e₁ … eᵢ   (rounds, values, error estimate
                                                             of every round)  |  `fail` after 30 rounds (IntegrationError)
-                                                            (atol ∈ {-, hex})
+                                                            |  `capped` when the harness's budget `cap < 30` of rounds is
+                                                            exhausted (2^cap integrand evaluations)   (atol ∈ {-, hex})
 -/
 namespace Opda.Drv.Quad
 open Opda.Wire Opda.Quad
@@ -101,12 +102,14 @@ def handleNoisy (fn : String) (args : List String) : Option String := do
     | _ => none
   | "navg" =>
     match rest with
-    | mn :: atol :: rest =>
+    | mn :: atol :: cap :: rest =>
       let mn ← parseOptBool? mn
       let atol ← (if atol == "-" then some none else (parseFloat? atol).map some)
+      let cap ← cap.toNat?
+      let cap := if cap > 30 then 30 else cap
       let (ns, _) ← takeList parseFloat? rest
-      match Opda.Noisy.avgRun P d ns mn atol with
-      | none => some "fail"
+      match Opda.Noisy.avgRunCapped P d ns mn atol cap with
+      | none => some (if cap < 30 then "capped" else "fail")
       | some (i, ts, errs) =>
         let tl := Opda.TrapLoop.tail P.n (Opda.Noisy.intLo P d) (Opda.Noisy.intHi P d)
         some (s!"{i} " ++ joinWith " " (ts.map fun t => hexOfFloat (tl + t)) ++ " " ++ joinWith " " (errs.map hexOfFloat))
